@@ -50,7 +50,8 @@ PutR(m, k, v, i) == IF i > Len(m) THEN Append(m, [k |-> k, v |-> v])
                     ELSE IF m[i].k = k THEN [m EXCEPT ![i].v = v] ELSE PutR(m, k, v, i + 1)
 Put(m, k, v) == PutR(m, k, v, 1)        \* IndexMap::insert: replaces in place, else appends
 \* servings as the analysis stores them (the value forms are CookMeta's business; here a small pool)
-ServingsOf(v) == CASE v = "2" -> <<2>> [] v = "4" -> <<4>> [] v = "2|4" -> <<2, 4>> [] v = "3 cups" -> <<3>> [] OTHER -> <<>>
+ServingsOf(v) == CASE v = "2" -> <<2>> [] v = "4" -> <<4>> [] v = "2|4" -> <<2, 4>> [] v = "3 cups" -> <<3>> [] v = "6|2" -> <<6, 2>>
+                   [] v = "4 | 2 | 8" -> <<4, 2, 8>> [] OTHER -> <<>>
 BadServings(v) == ServingsOf(v) = <<>>
 AMeta(a, k, v) ==
   IF "MODES" \in Ext /\ IsConfigKey(k)
